@@ -683,6 +683,11 @@ func RunAs(prop string) func(*gen.Ctx) error {
 		if err != nil {
 			return err
 		}
+		if prop == "C07" || prop == "C09" {
+			if err := poolHistories(c, prop, gen.NewRand(c.Seed+99), meta); err != nil {
+				return err
+			}
+		}
 		if prop == "C07" {
 			k := 300
 			if c.Thorough() {
